@@ -267,3 +267,103 @@ func genChurn(t *rapid.T) Churn {
 	}
 	return c
 }
+
+// PendingDials: asynchronous dials that can neither complete nor be refused (the listener's accept queue
+// is full) are still in flight when something ends them: the engine stops, or their own timeout fires.
+// Whatever ends a dial that was never established, its callback runs exactly once and reports an error.
+type PendingDials struct {
+	Mode      string `json:"mode"`
+	NPoller   int    `json:"npoller"`
+	Dials     int    `json:"dials"`
+	TimeoutMs []int  `json:"timeout_ms"` // per dial: 0 = DialAsync without timeout
+	WaitMs    int    `json:"wait_ms"`    // before the engine is stopped
+}
+
+func runPendingDials(c PendingDials) vlib.Result {
+	vlib.Logs.Take()
+	res := vlib.Result{Classes: []string{"pending-dials", "mode=" + c.Mode}}
+	conf := nbio.Config{NPoller: c.NPoller}
+	vlib.ApplyMode(&conf, c.Mode)
+	g := nbio.NewEngine(conf)
+	if err := g.Start(); err != nil {
+		return vlib.Fail("harness: engine start: %v", err)
+	}
+	stopped := false
+	defer func() {
+		if !stopped {
+			vlib.StopEngine(g.Stop, 10*time.Second)
+		}
+	}()
+	addr, cleanup, err := fullBacklogListener()
+	if err != nil {
+		return vlib.Fail("harness: backlog listener: %v", err)
+	}
+	defer cleanup()
+	type dial struct {
+		calls  int32
+		okCall int32
+		issued bool
+	}
+	ds := make([]*dial, c.Dials)
+	for i := range ds {
+		d := &dial{}
+		ds[i] = d
+		cb := func(nc *nbio.Conn, err error) {
+			atomic.AddInt32(&d.calls, 1)
+			if err == nil {
+				atomic.AddInt32(&d.okCall, 1)
+			}
+		}
+		var derr error
+		if ms := c.TimeoutMs[i%len(c.TimeoutMs)]; ms > 0 {
+			derr = g.DialAsyncTimeout("tcp", addr, time.Duration(ms)*time.Millisecond, cb)
+		} else {
+			derr = g.DialAsync("tcp", addr, cb)
+		}
+		d.issued = derr == nil
+	}
+	time.Sleep(time.Duration(c.WaitMs) * time.Millisecond)
+	stopped = true
+	if !vlib.StopEngine(g.Stop, 10*time.Second) {
+		res.Err = fmt.Errorf("Engine.Stop did not return within 10 s with %d asynchronous dials in flight", c.Dials)
+		return res
+	}
+	vlib.WaitUntil(3*time.Second, func() bool {
+		for _, d := range ds {
+			if d.issued && atomic.LoadInt32(&d.calls) == 0 {
+				return false
+			}
+		}
+		return true
+	})
+	time.Sleep(20 * time.Millisecond)
+	for i, d := range ds {
+		if !d.issued {
+			continue
+		}
+		n, ok := atomic.LoadInt32(&d.calls), atomic.LoadInt32(&d.okCall)
+		switch {
+		case ok > 0:
+			res.Err = fmt.Errorf("dial %d to a listener that accepts nothing (timeout %d ms, engine stopped after %d ms) reported success: the connection was never established", i, c.TimeoutMs[i%len(c.TimeoutMs)], c.WaitMs)
+		case n == 0:
+			res.Err = fmt.Errorf("dial %d (timeout %d ms, engine stopped after %d ms): the callback was never invoked (3 s after Stop returned)", i, c.TimeoutMs[i%len(c.TimeoutMs)], c.WaitMs)
+		case n > 1:
+			res.Err = fmt.Errorf("dial %d: the callback was invoked %d times", i, n)
+		}
+		if res.Err != nil {
+			return res
+		}
+		res.NonTrivial = true
+	}
+	return res
+}
+
+func genPendingDials(t *rapid.T) PendingDials {
+	c := PendingDials{Mode: rapid.SampledFrom(vlib.Modes).Draw(t, "mode"), NPoller: rapid.IntRange(1, 3).Draw(t, "npoller"), Dials: rapid.IntRange(1, 4).Draw(t, "dials")}
+	n := rapid.IntRange(1, 3).Draw(t, "ntimeouts")
+	for i := 0; i < n; i++ {
+		c.TimeoutMs = append(c.TimeoutMs, rapid.SampledFrom([]int{0, 0, 20, 100, 30000}).Draw(t, "timeout"))
+	}
+	c.WaitMs = rapid.SampledFrom([]int{0, 1, 30, 150}).Draw(t, "wait")
+	return c
+}
